@@ -653,3 +653,34 @@ func TestReplayScenarios(t *testing.T) {
 	r.stop()
 	ev.Eval()
 }
+
+// TestReplayStartTLSPipelining: credentials pipelined in cleartext behind
+// STARTTLS (same segment) must not reach the backend: when they were sent the
+// connection was neither encrypted nor allowed to authenticate in the clear.
+// (The STARTTLS boundary itself is property C17; this is its C05 face: a
+// backend method reached in a state that does not permit it.)
+func TestReplayStartTLSPipelining(t *testing.T) {
+	for _, inj := range []string{"p2 LOGIN u p\r\n", "p2 AUTHENTICATE PLAIN AHUAcA==\r\n", "p2 LOGIN {1+}\r\nu {1+}\r\np\r\n"} {
+		r := start(t, config{startTLS: true, features: stub.FAll})
+		if err := r.raw.Send("p1 STARTTLS\r\n" + inj); err != nil {
+			t.Fatalf("send: %v", err)
+		}
+		_, st, err := r.raw.WaitTag("p1")
+		if err != nil || st.Status != "OK" {
+			t.Fatalf("STARTTLS: %v %v", st, err)
+		}
+		if err := r.raw.StartTLS(tlsutil.ClientConfig()); err == nil {
+			r.raw.Timeout = 2 * time.Second
+			r.raw.Send("p3 NOOP\r\n")
+			r.raw.WaitTag("p3") // whatever the server makes of the injected bytes, give it time to act on them
+		}
+		for _, c := range r.core.AllCalls() {
+			if c.Method == "Login" || c.Method == "Authenticate" {
+				t.Fatalf("credentials sent in cleartext behind STARTTLS (%q in the same segment) reached the backend: %s %v", inj, c.Method, c.Args)
+			}
+		}
+		r.stop()
+		ev.Eval()
+	}
+	ev.NonTrivial("scenario:credentials-pipelined-behind-starttls")
+}
